@@ -4159,10 +4159,13 @@ list_sysfsnode(struct hwloc_topology *topology,
   nodeset = hwloc__alloc_read_path_as_cpulist("/sys/devices/system/node/online", data->root_fd);
   if (nodeset) {
     int _nbnodes = hwloc_bitmap_weight(nodeset);
-    assert(_nbnodes >= 1);
-    nbnodes = (unsigned)_nbnodes;
-    hwloc_debug_bitmap("possible NUMA nodes %s\n", nodeset);
-    goto found;
+    if (_nbnodes >= 1) {
+      nbnodes = (unsigned)_nbnodes;
+      hwloc_debug_bitmap("possible NUMA nodes %s\n", nodeset);
+      goto found;
+    }
+    /* empty or invalid list, fallback to listing the directory */
+    hwloc_bitmap_free(nodeset);
   }
 
   /* Get the list of nodes first */
